@@ -211,6 +211,10 @@ func (d *Directory) handleBind(t TestingT) func(w *gldap.ResponseWriter, r *glda
 		defer func() {
 			_ = w.Write(resp)
 		}()
+		// the directory's state is shared with other requests and the Set*
+		// functions, so hold its lock while handling the request
+		d.mu.Lock()
+		defer d.mu.Unlock()
 		m, err := r.GetSimpleBindMessage()
 		if err != nil {
 			d.logger.Error("not a simple bind message", "op", op, "err", err)
@@ -234,8 +238,6 @@ func (d *Directory) handleBind(t TestingT) func(w *gldap.ResponseWriter, r *glda
 				if len(values) > 0 && string(m.Password) == values[0] {
 					resp.SetResultCode(gldap.ResultSuccess)
 					if d.controls != nil {
-						d.mu.Lock()
-						defer d.mu.Unlock()
 						resp.SetControls(d.controls...)
 					}
 					return
@@ -304,6 +306,10 @@ func (d *Directory) handleSearchGeneric(t TestingT) func(w *gldap.ResponseWriter
 				return
 			}
 		}()
+		// the directory's state is shared with other requests and the Set*
+		// functions, so hold its lock while handling the request
+		d.mu.Lock()
+		defer d.mu.Unlock()
 		m, err := r.GetSearchMessage()
 		if err != nil {
 			d.logger.Error("not a search message: %s", "op", op, "err", err)
@@ -387,8 +393,6 @@ func (d *Directory) handleSearchGeneric(t TestingT) func(w *gldap.ResponseWriter
 				}
 			}
 			if d.controls != nil {
-				d.mu.Lock()
-				defer d.mu.Unlock()
 				res.SetControls(d.controls...)
 			}
 			res.SetResultCode(gldap.ResultSuccess)
@@ -411,6 +415,10 @@ func (d *Directory) handleSearchGroups(t TestingT) func(w *gldap.ResponseWriter,
 				return
 			}
 		}()
+		// the directory's state is shared with other requests and the Set*
+		// functions, so hold its lock while handling the request
+		d.mu.Lock()
+		defer d.mu.Unlock()
 		m, err := r.GetSearchMessage()
 		if err != nil {
 			d.logger.Error("not a search message: %s", "op", op, "err", err)
@@ -450,8 +458,6 @@ func (d *Directory) handleSearchGroups(t TestingT) func(w *gldap.ResponseWriter,
 			d.logger.Debug("found entries", "op", op, "count", foundEntries)
 
 			if d.controls != nil {
-				d.mu.Lock()
-				defer d.mu.Unlock()
 				res.SetControls(d.controls...)
 			}
 			res.SetResultCode(gldap.ResultSuccess)
@@ -474,6 +480,10 @@ func (d *Directory) handleSearchUsers(t TestingT) func(w *gldap.ResponseWriter, 
 				return
 			}
 		}()
+		// the directory's state is shared with other requests and the Set*
+		// functions, so hold its lock while handling the request
+		d.mu.Lock()
+		defer d.mu.Unlock()
 		m, err := r.GetSearchMessage()
 		if err != nil {
 			d.logger.Error("not a search message: %s", "op", op, "err", err)
@@ -501,8 +511,6 @@ func (d *Directory) handleSearchUsers(t TestingT) func(w *gldap.ResponseWriter, 
 		if foundEntries > 0 {
 			d.logger.Debug("found entries", "op", op, "count", foundEntries)
 			if d.controls != nil {
-				d.mu.Lock()
-				defer d.mu.Unlock()
 				res.SetControls(d.controls...)
 				fmt.Println(d.controls)
 			}
@@ -526,6 +534,10 @@ func (d *Directory) handleModify(t TestingT) func(w *gldap.ResponseWriter, r *gl
 				return
 			}
 		}()
+		// the directory's state is shared with other requests and the Set*
+		// functions, so hold its lock while handling the request
+		d.mu.Lock()
+		defer d.mu.Unlock()
 		m, err := r.GetModifyMessage()
 		if err != nil {
 			d.logger.Error("not a modify message: %s", "op", op, "err", err)
@@ -546,8 +558,6 @@ func (d *Directory) handleModify(t TestingT) func(w *gldap.ResponseWriter, r *gl
 			res.SetDiagnosticMessage(fmt.Sprintf("more than one match: %d entries", len(entries)))
 			return
 		}
-		d.mu.Lock()
-		defer d.mu.Unlock()
 		e := entries[0]
 		if entries[0].Attributes == nil {
 			e.Attributes = []*gldap.EntryAttribute{}
@@ -609,6 +619,10 @@ func (d *Directory) handleAdd(t TestingT) func(w *gldap.ResponseWriter, r *gldap
 				return
 			}
 		}()
+		// the directory's state is shared with other requests and the Set*
+		// functions, so hold its lock while handling the request
+		d.mu.Lock()
+		defer d.mu.Unlock()
 		m, err := r.GetAddMessage()
 		if err != nil {
 			d.logger.Error("not an add message: %s", "op", op, "err", err)
@@ -626,8 +640,6 @@ func (d *Directory) handleAdd(t TestingT) func(w *gldap.ResponseWriter, r *gldap
 			attrs[a.Type] = a.Vals
 		}
 		newEntry := gldap.NewEntry(m.DN, attrs)
-		d.mu.Lock()
-		defer d.mu.Unlock()
 		d.users = append(d.users, newEntry)
 		res.SetResultCode(gldap.ResultSuccess)
 	}
@@ -648,6 +660,10 @@ func (d *Directory) handleDelete(t TestingT) func(w *gldap.ResponseWriter, r *gl
 				return
 			}
 		}()
+		// the directory's state is shared with other requests and the Set*
+		// functions, so hold its lock while handling the request
+		d.mu.Lock()
+		defer d.mu.Unlock()
 		m, err := r.GetDeleteMessage()
 		if err != nil {
 			d.logger.Error("not a delete message: %s", "op", op, "err", err)
@@ -662,8 +678,6 @@ func (d *Directory) handleDelete(t TestingT) func(w *gldap.ResponseWriter, r *gl
 				res.SetDiagnosticMessage(fmt.Sprintf("more than one match: %d entries", len(foundAt)))
 				return
 			}
-			d.mu.Lock()
-			defer d.mu.Unlock()
 			d.users = append(d.users[:foundAt[0]], d.users[foundAt[0]+1:]...)
 			res.SetResultCode(gldap.ResultSuccess)
 			return
@@ -675,8 +689,6 @@ func (d *Directory) handleDelete(t TestingT) func(w *gldap.ResponseWriter, r *gl
 				res.SetDiagnosticMessage(fmt.Sprintf("more than one match: %d entries", len(foundAt)))
 				return
 			}
-			d.mu.Lock()
-			defer d.mu.Unlock()
 			d.groups = append(d.groups[:foundAt[0]], d.groups[foundAt[0]+1:]...)
 			res.SetResultCode(gldap.ResultSuccess)
 			return
@@ -849,6 +861,8 @@ func (d *Directory) ClientKey() string {
 
 // Controls returns all the current bind controls for the Directory
 func (d *Directory) Controls() []gldap.Control {
+	d.mu.Lock()
+	defer d.mu.Unlock()
 	return d.controls
 }
 
@@ -864,6 +878,8 @@ func (d *Directory) SetControls(controls ...gldap.Control) {
 
 // Users returns all the current user entries in the Directory
 func (d *Directory) Users() []*gldap.Entry {
+	d.mu.Lock()
+	defer d.mu.Unlock()
 	return d.users
 }
 
@@ -879,6 +895,8 @@ func (d *Directory) SetUsers(users ...*gldap.Entry) {
 
 // Groups returns all the current group entries in the Directory
 func (d *Directory) Groups() []*gldap.Entry {
+	d.mu.Lock()
+	defer d.mu.Unlock()
 	return d.groups
 }
 
@@ -904,11 +922,15 @@ func (d *Directory) SetTokenGroups(tokenGroups map[string][]*gldap.Entry) {
 
 // TokenGroups will return the tokenGroup entries
 func (d *Directory) TokenGroups() map[string][]*gldap.Entry {
+	d.mu.Lock()
+	defer d.mu.Unlock()
 	return d.tokenGroups
 }
 
 // AllowAnonymousBind returns the allow anon bind setting
 func (d *Directory) AllowAnonymousBind() bool {
+	d.mu.Lock()
+	defer d.mu.Unlock()
 	return d.allowAnonymousBind
 }
 
